@@ -49,6 +49,7 @@ type tcase struct {
 	Kind string   `json:"kind"` // user | peer
 	API  string   `json:"api"`  // user: set | send | unary (how the handler sets the header)
 	MD   []tentry `json:"md"`
+	Grp  bool     `json:"grp"` // all appended pairs in ONE AppendToOutgoingContext call
 }
 
 type kvs struct {
@@ -107,7 +108,7 @@ func serverMD(c *tcase) metadata.MD {
 }
 
 // clientCtx attaches the metadata to the outgoing context: base entries as a metadata.MD map handed
-// to NewOutgoingContext, appended entries one AppendToOutgoingContext call each.
+// to NewOutgoingContext, appended entries one AppendToOutgoingContext call each (or, grp, all in one call).
 func clientCtx(ctx context.Context, c *tcase) context.Context {
 	md := metadata.MD{}
 	nbase := 0
@@ -120,10 +121,18 @@ func clientCtx(ctx context.Context, c *tcase) context.Context {
 	if nbase > 0 || c.ID%2 == 0 {
 		ctx = metadata.NewOutgoingContext(ctx, md)
 	}
+	var kv []string
 	for _, e := range c.MD {
 		if e.App {
-			ctx = metadata.AppendToOutgoingContext(ctx, str(e.K), str(e.V))
+			if c.Grp {
+				kv = append(kv, str(e.K), str(e.V))
+			} else {
+				ctx = metadata.AppendToOutgoingContext(ctx, str(e.K), str(e.V))
+			}
 		}
+	}
+	if len(kv) > 0 {
+		ctx = metadata.AppendToOutgoingContext(ctx, kv...)
 	}
 	return ctx
 }
